@@ -1008,9 +1008,53 @@ fn lax_sliced_to_headers(base: &[u8], p: &LaxSlicedPacket) -> String {
 // IP boundary implementations
 
 fn ip_slice_str(base: &[u8], s: &IpSlice) -> String {
-    match s {
+    // `IpSlice::header()` (IpHeadersSlice) summarises the same layer: its conversions and numbers have to
+    // be the ones of the slice it came from
+    let hs = s.header();
+    let mut which: Vec<&str> = Vec::new();
+    if format!("{:?}", hs.try_to_header().ok()) != format!("{:?}", Some(s.to_header())) {
+        which.push("try_to_header");
+    }
+    // IpHeadersSlice::payload_ip_number walks the IPv6 chain in struct mode (Ipv6Extensions::from_slice_lax),
+    // i.e. it stops at an extension header that no longer fits the struct - the limitation documented for
+    // `try_to_header`; it is compared where the chain fits
+    let fits = match s {
+        IpSlice::Ipv4(_) => true,
+        IpSlice::Ipv6(v) => Ipv6Extensions::from_slice(v.header().next_header(), v.extensions().slice())
+            .map(|(e, _, rest)| rest.is_empty() && e.header_len() == v.extensions().slice().len())
+            .unwrap_or(false),
+    };
+    if fits && hs.payload_ip_number() != s.payload_ip_number() {
+        which.push("payload_ip_number");
+    }
+    if hs.is_ipv4() != matches!(s, IpSlice::Ipv4(_)) || hs.is_ipv6() != matches!(s, IpSlice::Ipv6(_)) {
+        which.push("is_ipvx");
+    }
+    if hs.version() != (if matches!(s, IpSlice::Ipv4(_)) { 4 } else { 6 }) {
+        which.push("version");
+    }
+    if hs.source_addr() != s.source_addr() || hs.destination_addr() != s.destination_addr() {
+        which.push("addr");
+    }
+    if hs.ipv4().is_some() != hs.is_ipv4()
+        || hs.ipv6().is_some() != hs.is_ipv6()
+        || hs.ipv4_exts().is_some() != hs.is_ipv4()
+        || hs.ipv6_exts().is_some() != hs.is_ipv6()
+    {
+        which.push("variant_accessors");
+    }
+    if hs.header_len() != (s.payload().payload.as_ptr() as usize) - (hs.slice().as_ptr() as usize) {
+        which.push("header_len");
+    }
+    let mism = !which.is_empty();
+    let main = match s {
         IpSlice::Ipv4(s) => net_slice(base, &Some(NetSlice::Ipv4(s.clone()))),
         IpSlice::Ipv6(s) => net_slice(base, &Some(NetSlice::Ipv6(s.clone()))),
+    };
+    if mism {
+        format!("{}!accessor-mismatch(ip_headers_slice:{})", main, which.join(","))
+    } else {
+        main
     }
 }
 
